@@ -100,7 +100,9 @@ def path_to_sched(cd, g, path, hint=None):
         if e['k'] == 'ret':
             pos[t] = pos.get(t, 0) + 1
         steps.append('%d:%d' % (t, a))
-        if not own_pu and (e['k'] in ('munlock', 'sunlock') or (e['k'] in ('ast', 'arm') and cd.release_of(e)) or (e['k'] == 'cas' and e.get('u') == 1)):
+        # (if the thread takes no further step in this path its bookkeeping step is left pending: a model with a step of its own for it -
+        # RcuList's e6p, where the zombie record is allocated - has not taken that step either)
+        if not own_pu and nxt is not None and (e['k'] in ('munlock', 'sunlock') or (e['k'] in ('ast', 'arm') and cd.release_of(e)) or (e['k'] == 'cas' and e.get('u') == 1)):
             steps.append('%d:0' % t)          # the bookkeeping step after a release-type operation (pu)
     return cd.path_header(s0) + ' | ' + ' '.join(steps), evs
 
